@@ -427,7 +427,11 @@ class ConnectHelper(Loggable):
     def _apply_in_info_rules(self):
         exchange_infos = {}
         for name, rules in self._in_info_rules.items():
-            if self.in_infos[name] is None and name not in self._in_info_cache:
+            # without caching, pending infos are dropped at the next call
+            # and have to be generated again
+            if self.in_infos[name] is None and (
+                not self._cache or name not in self._in_info_cache
+            ):
                 try:
                     info = self._apply_rules(rules)
                     exchange_infos[name] = info
